@@ -175,6 +175,12 @@ func runC07Case(r *ev.Run, c c07Case) {
 		opts = append(opts, mail.WithTLSPolicy(mail.NoTLS))
 	case "implicit":
 		opts = append(opts, mail.WithSSL())
+	case "implicit-then-notls", "implicit-then-setnotls":
+		// implicit TLS first, the STARTTLS policy NoTLS afterwards ("SSL on 465, no STARTTLS"): still implicit TLS
+		opts = append(opts, mail.WithSSL())
+		if c.Policy == "implicit-then-notls" {
+			opts = append(opts, mail.WithTLSPolicy(mail.NoTLS))
+		}
 	case "implicit-sslport", "implicit-setsslport":
 		// implicit TLS requested through WithSSLPort / SetSSLPort on a Client whose port has been set explicitly before
 		if c.Policy == "implicit-sslport" {
@@ -197,6 +203,9 @@ func runC07Case(r *ev.Run, c c07Case) {
 	}
 	if c.Policy == "implicit-setsslport" {
 		cl.SetSSLPort(true, false)
+	}
+	if c.Policy == "implicit-then-setnotls" {
+		cl.SetTLSPolicy(mail.NoTLS)
 	}
 	msg, _ := simpleMsg("c07", "sender@verif.example", []string{"rcpt@verif.example"}, "quoted-printable", "confidential body "+pass[:4]+"\r\n")
 	ctx, cancel := context.WithTimeout(context.Background(), 10*time.Second)
@@ -254,7 +263,7 @@ func runC07Case(r *ev.Run, c c07Case) {
 		if dialErr == nil && !encrypted {
 			viol("mandatory-delivered-unencrypted:"+cfgKey, "message delivered although no TLS handshake completed", clearLines)
 		}
-	case "implicit", "implicit-fallback", "implicit-sslport", "implicit-setsslport":
+	case "implicit", "implicit-fallback", "implicit-sslport", "implicit-setsslport", "implicit-then-notls", "implicit-then-setnotls":
 		if c.Policy == "implicit-fallback" {
 			r.Count("implicit_sessions_on_fallback_port", 1)
 		}
@@ -539,7 +548,7 @@ func runC07Shared(r *ev.Run, c c07SharedCase) {
 
 func runC07(r *ev.Run, rep *ev.ReplayDoc) ev.Summary {
 	sum := ev.Summary{
-		Rule: "matrix policy {mandatory, opportunistic, none, implicit (WithSSL; also WithSSLPort / SetSSLPort after an explicit WithPort, and the fixed fallback port)} x auth type (all 13; custom = a harness mechanism without password) x host {localhost, 127.0.0.1, 127.0.0.2 (a non-localhost name reachable on loopback; certificate SANs cover all three)} x server behaviour {STARTTLS advertised or not; STARTTLS reply 220 / 454 / 502 / garbage; handshake ok / wrong-name certificate / untrusted certificate / garbage bytes} x 4 advertised AUTH lists, over real loopback TCP with the library's own dialers (tls.Dialer for implicit TLS). thorough enumerates the full matrix (minus combinations that cannot differ), quick a deterministic covering subset. The tap below the TLS layer records every byte before the first TLS record. Plus sequences on one live Client: dial under NoTLS / opportunistic, SetTLSPolicy(TLSMandatory), dial again (with and without Close in between), send; and one *tls.Config without ServerName shared by two Clients for different hosts whose servers both present the certificate of the first host. distinct by case",
+		Rule: "matrix policy {mandatory, opportunistic, none, implicit (WithSSL; also WithSSLPort / SetSSLPort after an explicit WithPort, WithSSL followed by the STARTTLS policy NoTLS, and the fixed fallback port)} x auth type (all 13; custom = a harness mechanism without password) x host {localhost, 127.0.0.1, 127.0.0.2 (a non-localhost name reachable on loopback; certificate SANs cover all three)} x server behaviour {STARTTLS advertised or not; STARTTLS reply 220 / 454 / 502 / garbage; handshake ok / wrong-name certificate / untrusted certificate / garbage bytes} x 4 advertised AUTH lists, over real loopback TCP with the library's own dialers (tls.Dialer for implicit TLS). thorough enumerates the full matrix (minus combinations that cannot differ), quick a deterministic covering subset. The tap below the TLS layer records every byte before the first TLS record. Plus sequences on one live Client: dial under NoTLS / opportunistic, SetTLSPolicy(TLSMandatory), dial again (with and without Close in between), send; and one *tls.Config without ServerName shared by two Clients for different hosts whose servers both present the certificate of the first host. distinct by case",
 		Assumptions: []string{
 			"'localhost names' are localhost, 127.0.0.1, ::1; 127.0.0.2 stands for any other host",
 			"credentials are unique 16-18 character random strings; searched raw, base64 (3 alphabets), hex, and inside every base64 token of the cleartext",
@@ -621,7 +630,7 @@ func runC07(r *ev.Run, rep *ev.ReplayDoc) ev.Summary {
 	// implicit TLS requested with WithSSLPort / SetSSLPort after an explicit port
 	for hi, host := range []string{"127.0.0.2", "localhost"} {
 		for ai, at := range []string{"NOAUTH", "PLAIN-NOENC", "LOGIN", "AUTODISCOVER"} {
-			for pi, pol := range []string{"implicit-sslport", "implicit-setsslport"} {
+			for pi, pol := range []string{"implicit-sslport", "implicit-setsslport", "implicit-then-notls", "implicit-then-setnotls"} {
 				if !r.Thorough() && (hi+ai+pi)%2 != 0 {
 					continue
 				}
